@@ -39,6 +39,7 @@ type frame struct {
 	fn      *ssa.Function
 	spec    *FuncSpec
 	parent  *frame
+	private []privCell // heap-allocated locals no callee can write (privatecells.go)
 	depth   int
 	vals    map[ssa.Value]Val
 	pcIn    map[int]*Term
@@ -78,8 +79,17 @@ func (c *Ctx) newFrame(fn *ssa.Function, spec *FuncSpec, parent *frame) *frame {
 		f.inlined = true
 	}
 	f.tag = smtIdent(fn.Name())
+	if parent != nil {
+		// every inlined activation names its values apart: the same function
+		// inlined twice (or two functions of the same name, e.g. two Load
+		// methods) must not share SMT constants
+		inlineSeq++
+		f.tag = fmt.Sprintf("%s_i%d", f.tag, inlineSeq)
+	}
 	return f
 }
+
+var inlineSeq int
 
 func (f *frame) warnf(format string, a ...interface{}) {
 	msg := fmt.Sprintf(format, a...)
@@ -737,6 +747,9 @@ func (f *frame) execInstr(instr ssa.Instruction, pc *Term, st State) {
 		p := Val{T: ref, Typ: x.Type()}
 		f.store(st, p, c.zero(elem))
 		f.vals[x] = p
+		if isPrivateCell(x) {
+			f.private = append(f.private, privCell{ref: ref, elem: elem})
+		}
 	case *ssa.BinOp:
 		f.define(x, f.binop(x, pc))
 	case *ssa.UnOp:
